@@ -123,7 +123,7 @@ func checkStaticSampled(c staticCase) *vk.Failure {
 }
 
 func TestStatic(t *testing.T) {
-	vk.Run(t, "static", vk.Opts{Quick: 30000, Thorough: 700000}, drawStatic, checkStaticSampled)
+	vk.Run(t, "static", vk.Opts{Quick: 40000, Thorough: 500000}, drawStatic, checkStaticSampled)
 }
 
 // ---- exhaustive part --------------------------------------------------------
